@@ -985,16 +985,41 @@ func (e *Exec) specFnDefs() string {
 	for n := range e.sf.Fns {
 		names = append(names, n)
 	}
+	// global spec fns (from /verif/specs) are defined only where they are used: their types need not even
+	// resolve in packages that never mention them
+	pe := newExec(e.g, e.pkg)
+	pe.sf = e.sf
+	pe.fi = e.fi
+	used := map[string]bool{}
+	for n := range e.usedFns {
+		used[n] = true
+	}
+	for changed := true; changed; {
+		changed = false
+		for n, f := range e.g.globalFns {
+			if !used[n] || f.Body == nil {
+				continue
+			}
+			probe := newExec(e.g, e.pkg)
+			probe.sf, probe.fi = e.sf, e.fi
+			env := &SpecEnv{pure: true, names: map[string]boundVar{}, pkg: e.pkg, sf: e.sf}
+			nm, _ := probe.pureParamsL(f.Params, "p.", env, false, f)
+			probe.evalSpec(f.Body.Expr, env.with(nm))
+			for u := range probe.usedFns {
+				if !used[u] {
+					used[u] = true
+					changed = true
+				}
+			}
+		}
+	}
 	for n, f := range e.g.globalFns {
-		if _, dup := e.sf.Fns[n]; !dup && f.Body != nil {
+		if _, dup := e.sf.Fns[n]; !dup && f.Body != nil && used[n] {
 			names = append(names, n)
 		}
 	}
 	sort.Strings(names)
 	var b strings.Builder
-	pe := newExec(e.g, e.pkg)
-	pe.sf = e.sf
-	pe.fi = e.fi
 	for _, n := range names {
 		fn := e.sf.Fns[n]
 		if fn == nil {
